@@ -183,7 +183,8 @@ func fieldIndex(t *types.Struct, name string) int {
 			return i
 		}
 	}
-	return -1
+	// the logical name of a renamed unexported field: resolve by role (roles.go)
+	return roleFieldIndex(t, name)
 }
 
 // newTopObject allocates an object of named struct type with unknown fields and returns a pointer to it.
